@@ -750,6 +750,16 @@ def gen_cases(rng, tier):
         for sched in ([0, 1, 0, 0, 0, 1], [1, 0, 1, 1, 1, 0], [0, 1, 0, 1]):
             out.append(case("race-regression", "run", _progs([[a], [b]]), sched, EAGER))
             out.append(case("race-regression", "run", _progs([[b], [a]]), sched, EAGER))
+    # --- repeated messages: the same peer sends the IDENTICAL message twice (and two peers send the same message):
+    #     every copy must be queued / answered exactly once (a de-duplicating queue would drop the second copy) ---
+    for kinds in (["inv", "inv"], ["addr", "addr", "addr"], ["unknown", "unknown"], ["ping", "ping"], ["version", "version"],
+                  ["inv", "ping", "inv"]):
+        same = [[_msg(kd, 1) for kd in kinds]]
+        out.append(case("duplicate-messages", "run", same, [0] * 8, FINE))
+        out.append(case("duplicate-messages", "run", [same[0], list(same[0])], [0, 1] * 8, FINE))
+        out.append(case("duplicate-messages", "sweep", [same[0], list(same[0])][: 2 if len(kinds) < 3 else 1], 10, 0, EAGER))
+    # two messages of one unknown command with different raw payloads (both parse to None)
+    out.append(case("duplicate-messages", "run", [[(b"foobar", b"payload-1"), (b"foobar", b"payload-6")]], [0] * 6, FINE))
     # --- degenerate shapes ---
     for mode in (FINE, EAGER):
         out.append(case("no-threads", "run", [], [0, 1, 2], mode))
